@@ -39,7 +39,8 @@ class Engine:
         self.trusted.add(label)
 
     def feasible(self, st):
-        return self.solver.feasible(st.pc)
+        ax = self.axiom_fn(st.pc) if getattr(self, "axiom_fn", None) else []
+        return self.solver.feasible(list(st.pc) + ax)
 
     def fork(self, st, cond, tag):
         """-> list of (state, bool) for the feasible sides of a symbolic branch."""
@@ -553,7 +554,36 @@ class Engine:
         return self.intr.dict_display(self, e, st)
 
     def e_JoinedStr(self, e, st):
-        return [(st, Z(smt.fresh("fstr"), "str"))]
+        """f-string: the concatenation of its parts as a z3 String (used to reason about the temp-file name)."""
+        to_str = smt.F("to_str", Val, smt.StrS)
+        cur = [(st, [])]
+        for part in e.values:
+            nxt = []
+            for (x, acc) in cur:
+                if isinstance(acc, Raise):
+                    nxt.append((x, acc))
+                elif isinstance(part, ast.Constant):
+                    nxt.append((x, acc + [z3.StringVal(str(part.value))]))
+                else:
+                    for (y, v) in self.ev(part.value, x):
+                        if isinstance(v, Raise):
+                            nxt.append((y, v))
+                            continue
+                        try:
+                            t = to_val(v)
+                        except Unsupported:
+                            t = smt.fresh("fmt")
+                        y.assume(z3.Implies(smt.is_VStr(t), to_str(t) == Val.s(t)))
+                        nxt.append((y, acc + [to_str(t)]))
+            cur = nxt
+        outs = []
+        for (x, acc) in cur:
+            if isinstance(acc, Raise):
+                outs.append((x, acc))
+            else:
+                s_ = acc[0] if len(acc) == 1 else z3.Concat(*acc)
+                outs.append((x, Z(VStr(s_), "str", {"plain": True})))
+        return outs
 
     def e_Lambda(self, e, st):
         return [(st, LambdaV(e, self.current_module(st), dict(st.loc)))]
@@ -952,7 +982,8 @@ class Engine:
         """Call of a repo (or stdlib-mixin) function: contract if it has one, else inline."""
         q = fi.qualname
         c = self.contracts.get(q)
-        if c is not None and q not in self.no_contract:
+        if c is not None and (q not in self.no_contract or any(f is fi for f in st.frames)):
+            # (a recursive call of the function under verification uses its own contract: partial correctness)
             self.used_contracts.add(q)
             return c.apply(self, st, list(args), dict(kwargs))
         if fi.abstract and fi.body and all(isinstance(b, ast.Pass) for b in fi.body):
